@@ -104,9 +104,9 @@ impl<'de, R: Reader<'de>> Parser<R> {
                 str_end(s, i0) == str_end(s, self.read.idx() as int),
                 is_esc_status(status) <==> has_bs(s, i0, self.read.idx() as int),
             decreases s.len() - self.read.idx(),
-//@before /self.skip_escaped_chars\(\)\?;/ #2
+//@before? /self.skip_escaped_chars\(\)\?;/ #2
                     let ghost bsp = self.read.idx() as int - 1;
-//@after /self.skip_escaped_chars\(\)\?;/ #2
+//@after? /self.skip_escaped_chars\(\)\?;/ #2
                     proof { lemma_has_bs_witness(s, i0, bsp, self.read.idx() as int); }
 //@end
 
